@@ -120,9 +120,15 @@ def rule_order(prog, rep):
     ess = prog.fn(r"^apollo_compiler::resolvers::execution::execute_selection_set$")
     body = prog.hir_body(ess)["body"]
     # the grouped field set is an IndexMap filled by collect_fields
-    gty = None
+    # (identified as the local handed to collect_fields as its output map, whatever its name)
+    gty, gid, gname = None, None, None
+    for m in walk(body):
+        if m.get("k") == "call" and callee_path(m) and callee_path(m).endswith("execution::collect_fields") and m.get("args"):
+            for q in walk(m["args"][-1]):
+                if q.get("k") == "path" and q.get("res") and q["res"][0] == "local":
+                    gid, gname = q["res"][2], q["res"][1]
     for n in walk(body):
-        if n.get("k") == "slet" and n["pat"].get("k") == "bind" and n["pat"]["name"] == "grouped_field_set":
+        if n.get("k") == "slet" and n["pat"].get("k") == "bind" and n["pat"].get("id") == gid:
             gty = n["pat"].get("ty")
     found = False
     for n in walk(body):
@@ -131,15 +137,16 @@ def rule_order(prog, rep):
             it = n["scrut"]
             if not (it.get("k") == "call" and (callee_path(it) or "").endswith("IntoIterator::into_iter")):
                 continue  # the inner `match Iterator::next(&mut iter)` of the same desugaring
-            src = None
+            src, src_id = None, None
             for m in walk(it):
                 if m.get("k") == "path" and res_path(m.get("res")) and res_path(m["res"]).startswith("local:"):
                     src = res_path(m["res"])[6:]
+                    src_id = m["res"][2]
             loop_has_await = _contains_await_of(n, r"resolvers::execution::execute_field$")
             if loop_has_await:
                 found = True
                 ty_ok = gty is not None and re.match(r"^indexmap::IndexMap<", gty)
-                if src == "grouped_field_set" and ty_ok:
+                if gid is not None and src_id == gid and ty_ok:
                     rep.instance("C27.ORDER", "execute_selection_set: `for .. in &grouped_field_set` (IndexMap, document order) awaits execute_field inside the loop body")
                 else:
                     rep.finding("C27.ORDER", ess.name, "field-loop-source", "the loop that awaits execute_field iterates `%s` of type %s, not the IndexMap built by collect_fields (document order)" % (src, gty), ess.loc())
